@@ -58,13 +58,15 @@ Proof. unfold do_close. pose proof (close_all_env s) as H. destruct (close_all s
 Lemma on_event_env ev s : env_eq s (fst (fst (on_event ev s))).
 Proof. destruct ev; cbn [on_event]; repeat dmatch; cbn [fst]; try apply env_eq_refl; try apply env_eq_setm.
   - unfold on_error. repeat dmatch; try apply env_eq_refl; apply env_eq_setm.
-  - eapply close_all_env'; eauto. Qed.
+  - eapply close_all_env'; eauto.
+  - unfold env_eq. cbn. tauto. Qed.
 
 (* ---- the error-handler calls of a duty cycle ---- *)
 Lemma has_err_in e cbs : has_err e cbs = true <-> In (CbErr e) cbs.
 Proof. unfold has_err. rewrite existsb_exists. split.
-  - intros (x & Hin & Hx). destruct x; try discriminate. destruct e, e0; try discriminate; exact Hin.
-  - intros H. exists (CbErr e). split; auto. destruct e; reflexivity. Qed.
+  - intros (x & Hin & Hx). destruct x; try discriminate. destruct e, e0; try discriminate; try exact Hin.
+    cbn in Hx. assert (x = x0) by lia. subst. exact Hin.
+  - intros H. exists (CbErr e). split; auto. destruct e; try reflexivity. cbn. apply Z.eqb_refl. Qed.
 
 Lemma has_err_app e a b : has_err e (a ++ b) = has_err e a || has_err e b.
 Proof. unfold has_err. apply existsb_app. Qed.
@@ -82,11 +84,14 @@ Proof. intros e Hin. unfold close_all in Hin. destruct (closed s); [exact Hin|].
 Lemma close_all_no_errs' s s1 cbs hang : close_all s = (s1, cbs, hang) -> no_errs cbs.
 Proof. intros H. pose proof (close_all_no_errs s) as X. rewrite H in X. exact X. Qed.
 
-Lemma on_event_errs ev s e : In (CbErr e) (snd (fst (on_event ev s))) -> e = EClientTimeout.
+Lemma on_event_errs ev s e : In (CbErr e) (snd (fst (on_event ev s))) ->
+  e = EClientTimeout \/ exists x, ev = EvChanError x /\ e = EChannelEndpoint x.
 Proof. destruct ev; cbn [on_event]; repeat dmatch; cbn [fst snd]; try (intros [H|[]]; discriminate); try (intros []).
-  intros Hin. apply in_app_or in Hin. destruct Hin as [Hin|[Hin|[]]].
-  - exfalso. eapply close_all_no_errs'; eauto.
-  - congruence. Qed.
+  - intros Hin. left. apply in_app_or in Hin. destruct Hin as [Hin|[Hin|[]]].
+    + exfalso. eapply close_all_no_errs'; eauto.
+    + congruence.
+  - intros Hin. right. apply on_chan_error_cbs_shape in Hin. destruct Hin as [Hin|(r & i & Hin)]; [|discriminate].
+    inversion Hin; subst. eauto. Qed.
 
 (* ---- exact description of the timer part of a duty cycle ---- *)
 Definition keep_due (s : st) : bool := t_keep s + KEEPALIVE_TIMEOUT_MS <? now s.
@@ -152,6 +157,59 @@ Proof. cbn zeta. unfold heartbeat_check.
       rewrite ?A1, ?A3, ?A4, ?A5, ?A6, ?A7, ?app_nil_r, ?Hh1; cbn [orb andb negb];
       rewrite ?Bool.andb_false_r, ?Bool.andb_true_r, ?Bool.orb_false_r; repeat split; reflexivity. Qed.
 
+(* ---- ChannelEndpointException is reported by the duty cycle that receives the error, with its id, and nowhere else ---- *)
+Lemma heartbeat_check_no_chan c s y : ~ In (CbErr (EChannelEndpoint y)) (snd (fst (fst (heartbeat_check c s)))).
+Proof. unfold heartbeat_check.
+  pose proof (hc_service_spec c s) as [_ E1]. destruct (hc_service c (now s) s) as [[s1 cbs1] hang1]. cbn [fst snd] in E1.
+  unfold hc_keepalive. destruct (t_keep (set_t_work (now s) s1) + KEEPALIVE_TIMEOUT_MS <? now s).
+  - unfold hc_driver. destruct ((0 <=? driver_hb (set_t_work (now s) s1)) && (driver_hb (set_t_work (now s) s1) + c_tdrv c <? now s)).
+    + pose proof (hc_heartbeat_spec (set_driver_active false (set_t_work (now s) s1))) as H2. cbn zeta in H2.
+      destruct (hc_heartbeat (set_driver_active false (set_t_work (now s) s1))) as [[s2 cbs2] hang2]. cbn [fst snd] in H2.
+      destruct H2 as (_ & _ & _ & _ & _ & _ & _ & E2). destruct (hc_resources (now s) (set_t_keep (now s) s2)). cbn [fst snd].
+      intros Hin. apply in_app_or in Hin. destruct Hin as [Hin|Hin]; [apply E1 in Hin; discriminate|].
+      apply in_app_or in Hin. destruct Hin as [[Hin|[]]|Hin]; [discriminate|apply E2 in Hin; discriminate].
+    + pose proof (hc_heartbeat_spec (set_t_work (now s) s1)) as H2. cbn zeta in H2.
+      destruct (hc_heartbeat (set_t_work (now s) s1)) as [[s2 cbs2] hang2]. cbn [fst snd] in H2.
+      destruct H2 as (_ & _ & _ & _ & _ & _ & _ & E2). destruct (hc_resources (now s) (set_t_keep (now s) s2)). cbn [fst snd].
+      intros Hin. apply in_app_or in Hin. destruct Hin as [Hin|Hin]; [apply E1 in Hin; discriminate|].
+      cbn [app] in Hin. apply E2 in Hin. discriminate.
+  - destruct (hc_resources (now s) (set_t_work (now s) s1)). cbn [fst snd]. rewrite app_nil_r. intros Hin. apply E1 in Hin. discriminate. Qed.
+
+Lemma do_release_no_chan k r imgs s y : ~ In (CbErr (EChannelEndpoint y)) (fst (snd (do_release k r imgs s))).
+Proof. assert (Hi : ~ In (CbErr (EChannelEndpoint y)) (inactive_cb s)) by (unfold inactive_cb; destruct (driver_active s); [intros []|intros [H|[]]; discriminate]).
+  assert (Hm : ~ In (CbErr (EChannelEndpoint y)) (map (fun img => CbUnavailImg r img 1) imgs)).
+  { intros H. apply in_map_iff in H. destruct H as (i & H & _). discriminate. }
+  unfold do_release. dmatch; [|exact Hi]. destruct (ring_full s); [destruct k|]; cbn [fst snd]; rewrite ?app_nil_r; try exact Hi;
+    intros H; apply in_app_or in H; destruct H as [H|H]; auto. Qed.
+
+Lemma step_chan_errs c s o y : In (CbErr (EChannelEndpoint y)) (snd (fst (snd (step c s o)))) -> o = DoWork (BEvent (EvChanError y)).
+Proof. destruct o; cbn [step].
+  - unfold do_add. repeat dmatch; cbn [fst snd]; intros [].
+  - unfold do_find. repeat dmatch; cbn [fst snd]; intros [].
+  - rewrite do_drop_eq. destruct k; try (cbn; intros []; fail); (destruct (user_obj _ r s) as [o|]; [|cbn; intros []]); cbn [fst snd];
+      unfold dtor_user; try destruct (o_closed o); try (cbn; intros []; fail); intros H; exfalso; eapply do_release_no_chan; eauto.
+  - unfold do_peek. dmatch; cbn; intros [].
+  - unfold do_close. pose proof (close_all_no_errs s) as H. destruct (close_all s) as [[s1 cbs] hang]. cbn [fst snd] in H.
+    destruct hang; [|destruct (close_sent s1)]; cbn [fst snd]; intros Hin; exfalso; eapply H; eauto.
+  - cbn. intros [].
+  - cbn. intros [].
+  - cbn. intros [].
+  - cbn. intros [].
+  - unfold do_work. destruct b; try (cbn; intros []; fail).
+    + cbn. pose proof (heartbeat_check_no_chan c s y) as H. destruct (heartbeat_check c s) as [[[s2 cbs2] hang2] r]. cbn [fst snd] in H.
+      destruct hang2; cbn [fst snd]; intros Hin; exfalso; auto.
+    + pose proof (on_event_errs e s (EChannelEndpoint y)) as H1. destruct (on_event e s) as [[s1 cbs1] hang1]. cbn [fst snd] in H1.
+      destruct hang1; cbn [fst snd].
+      * intros Hin. destruct (H1 Hin) as [H|(x & -> & H)]; [discriminate|]. inversion H; subst. reflexivity.
+      * pose proof (heartbeat_check_no_chan c s1 y) as H. destruct (heartbeat_check c s1) as [[[s2 cbs2] hang2] r]. cbn [fst snd] in H.
+        destruct hang2; cbn [fst snd]; intros Hin; apply in_app_or in Hin; destruct Hin as [Hin|Hin]; try (exfalso; auto; fail);
+          destruct (H1 Hin) as [H0|(x & -> & H0)]; try discriminate; inversion H0; subst; reflexivity.
+  - unfold do_close_handle. repeat dmatch; cbn [fst snd]; intros []. Qed.
+
+Lemma step_chan_errs_ok c s o : chan_errs_ok o (snd (fst (snd (step c s o)))) = true.
+Proof. unfold chan_errs_ok. apply forallb_forall. intros cb0 Hin. destruct cb0; auto. destruct e; auto.
+  rewrite (step_chan_errs c s o x Hin). apply Z.eqb_refl. Qed.
+
 (* ---- the core judge on the model ---- *)
 Record CW (c0 : Z) (w : wst) (s : st) : Prop := mkCW {
   W_client : client_id s = c0;
@@ -191,7 +249,7 @@ Proof. unfold delta. destruct (closed s); [reflexivity|]. destruct (closed s'); 
 
 Lemma dowork_checks c0 tdrv tis c w s s1 cbs1 :
   c_tdrv c = tdrv -> c_tis c = tis -> CW c0 w s -> env_eq s s1 -> client_id s1 = client_id s ->
-  (forall e, In (CbErr e) cbs1 -> e = EClientTimeout) ->
+  (forall e, In (CbErr e) cbs1 -> e = EClientTimeout \/ exists x, e = EChannelEndpoint x) ->
   let s2 := fst (fst (fst (heartbeat_check c s1))) in
   let cbs := cbs1 ++ snd (fst (fst (heartbeat_check c s1))) in
   let keep := w_tprev w + KEEPALIVE_TIMEOUT_MS <? w_now w in
@@ -212,7 +270,7 @@ Proof. intros Hd Hi W (A1 & A2 & A3 & A4 & A5 & A6 & A7) Hcid E1. cbn zeta.
   assert (Hkeep : (w_tprev w + KEEPALIVE_TIMEOUT_MS <? w_now w) = true -> keep_due s1 = true).
   { unfold keep_due. clear - T2 T3. intros H. rewrite T3 in H. lia. }
   assert (Hh1 : has_err EWasInactive cbs1 = false).
-  { destruct (has_err EWasInactive cbs1) eqn:E; auto. apply has_err_in in E. apply E1 in E. discriminate. }
+  { destruct (has_err EWasInactive cbs1) eqn:E; auto. apply has_err_in in E. apply E1 in E. destruct E as [E|(x & E)]; discriminate. }
   pose proof (heartbeat_check_spec c s1) as Hs. cbn zeta in Hs. destruct Hs as (S1 & S2 & S3 & S4 & S5 & S6 & S7 & S8).
   pose proof (heartbeat_check_ids c s1) as [_ Hc2].
   split; [|split; [|split]].
@@ -253,7 +311,8 @@ Proof. intros Hd Hi I W Ht.
   pose proof (step_closed_mono c s o I) as Hmono. pose proof (step_cmds c s o) as [Hcid _].
   unfold c10_core_step.
   destruct (step c s o) as [s' [[r cbs] cmds]] eqn:Es. cbn [fst snd] in *.
-  rewrite (fine_is_fine r Hfine). cbn [negb]. rewrite count_close_cb_eq, Hcount, (W_closed _ _ _ W), (nclose_ok s s'), (closed_after_eq s s' Hmono).
+  pose proof (step_chan_errs_ok c s o) as Hchan. rewrite Es in Hchan. cbn [fst snd] in Hchan.
+  rewrite (fine_is_fine r Hfine). cbn [negb]. rewrite Hchan. cbn [negb]. rewrite count_close_cb_eq, Hcount, (W_closed _ _ _ W), (nclose_ok s s'), (closed_after_eq s s' Hmono).
   destruct o; cbn [step] in Es.
   - (* Add *) pose proof (do_add_env k a1 a2 a3 s) as He. rewrite Es in He. cbn [fst] in He.
     assert (Hok : (closed s || w_inactive w) && is_okr r = false).
@@ -311,7 +370,9 @@ Proof. intros Hd Hi I W Ht.
       { intros cid -> -> Hc. pose proof (client_timeout_reported s Hc) as X. rewrite (W_client _ _ _ W) in X.
         destruct (on_event (EvClientTimeout c0) s) as [[sx cx] hx]. exact X. }
       destruct (on_event e s) as [[s1 cbs1] hang1]. cbn [fst snd] in *. subst hang1.
-      pose proof (dowork_checks c0 tdrv tis c w s s1 cbs1 Hd Hi W He Hc1 (fun e0 H => Herr e0 H)) as (C1 & C2 & C3 & C4). cbn zeta in C1, C2, C3, C4.
+      assert (Herr' : forall e0, In (CbErr e0) cbs1 -> e0 = EClientTimeout \/ exists x, e0 = EChannelEndpoint x).
+      { intros e0 H. destruct (Herr e0 H) as [->|(x & _ & ->)]; eauto. }
+      pose proof (dowork_checks c0 tdrv tis c w s s1 cbs1 Hd Hi W He Hc1 Herr') as (C1 & C2 & C3 & C4). cbn zeta in C1, C2, C3, C4.
       pose proof (heartbeat_check_no_hang c s1) as Hh. pose proof (heartbeat_check_stable c s1) as [_ Hm2].
       destruct (heartbeat_check c s1) as [[[s2 cbs2] hang2] rr]. cbn [fst snd] in *. subst hang2. inversion Es; subst s' r cbs cmds. clear Es.
       cbn [is_okr negb].
@@ -328,6 +389,11 @@ Proof. intros Hd Hi I W Ht.
       assert (Q3 : (w_tprev w + KEEPALIVE_TIMEOUT_MS <? w_now w) && w_bound w && negb (w_hbenv w =? 1) && negb (has_err EHeartbeatLost (cbs1 ++ cbs2) && closed s2) = false)
         by (destruct ((w_tprev w + KEEPALIVE_TIMEOUT_MS <? w_now w) && w_bound w && negb (w_hbenv w =? 1)); [rewrite (C3 eq_refl)|]; reflexivity).
       rewrite Q1, Q0, Q2, Q3. eexists; split; [reflexivity|exact C4].
+  - (* CloseHandle: only the handle's own flag *)
+    assert (He : env_eq s s' /\ client_id s' = client_id s).
+    { unfold do_close_handle in Es. destruct k; try (inversion Es; subst; split; [apply env_eq_refl|reflexivity]);
+        (destruct (user_obj _ r0 s); inversion Es; subst; (split; [|reflexivity]); [unfold env_eq; cbn; tauto|apply env_eq_refl]). }
+    eexists. split; [reflexivity|]. apply (cw_env c0 w s s'); tauto.
 Qed.
 
 Lemma core_run c0 tdrv tis ops : forall w s,
